@@ -336,7 +336,7 @@ def exec_case(p, res, plans=None, rng=None):
         core.bump(stats, 'probe.rank_reduced')
     if p.get('history') and c is None:
         # the same cores wrapped in a fresh object must round to the same thing (round is a function of the cores)
-        fresh = TT([cc.clone() for cc in x.cores])
+        fresh = TT(list(x.cores))          # the very same tensors (same memory layout, hence the same bits), only the object is new
         yr = fresh.round(p['eps']) if p['rmax'] is None else fresh.round(p['eps'], p['rmax'])
         if gen.ints(yr.R) != gen.ints(y0.R) or gen.fro(gen.dense(yr) - gen.dense(y0)) > 1e-12 * max(gen.fro(ref), 1e-300):
             out.append(core.violation(PROP, 'HISTORY', 'round', 'depends_on_history', 'round() of an object that was rounded and then modified through set_core gives ranks %s; the same cores in a fresh object give %s' % (
